@@ -40,7 +40,10 @@ A0(n, b) == [opened |-> [s \in AS |-> s > 3 /\ s - 3 <= n /\ b[s - 3]],
              wr |-> [s \in AS |-> 0], rd |-> [s \in AS |-> 0],
              fin |-> [s \in AS |-> "no"], eof |-> [s \in AS |-> FALSE], cut |-> [s \in AS |-> FALSE]]
 
+\* the variables of the model are not used here (only its contract-level operators are);
+\* they sit in their initial state
 TraceInit ==
+  /\ Init
   /\ l = 1 /\ TLCSet(1, 1)
   /\ a = A0(0, <<FALSE, FALSE, FALSE>>) /\ W = 0 /\ maxs = 1 /\ bi = <<FALSE, FALSE, FALSE>> /\ nstr = 0
   /\ dsent = {} /\ drecv = {} /\ closed = FALSE
@@ -103,9 +106,10 @@ TraceNext ==
   /\ l <= N
   /\ Event(Rec[l])
   /\ l' = l + 1
+  /\ UNCHANGED vars
   /\ TLCSet(1, l + 1)
 
-TraceSpec == TraceInit /\ [][TraceNext]_tvars
+TraceSpec == TraceInit /\ [][TraceNext]_<<tvars, vars>>
 
 Accept ==
   IF TLCGet(1) = N + 1
